@@ -390,10 +390,15 @@ impl Compiler {
                 {
                     // Make const size by transforming `(?<=a|bb)` to `(?<=a)|(?<=bb)`
                     let alternatives = &inner.children;
+                    // The look-behind as a whole is atomic: once one alternative has matched,
+                    // the remaining ones must not be tried when matching fails later on.
+                    self.b.add(Insn::BeginAtomic);
                     self.compile_alt(alternatives.len(), |compiler, i| {
                         let alternative = &alternatives[i];
                         compiler.compile_positive_lookaround(alternative, la)
-                    })
+                    })?;
+                    self.b.add(Insn::EndAtomic);
+                    Ok(())
                 } else {
                     self.compile_positive_lookaround(inner, la)
                 }
@@ -423,7 +428,16 @@ impl Compiler {
     fn compile_positive_lookaround(&mut self, inner: &Info<'_>, la: LookAround) -> Result<()> {
         let save = self.b.newsave();
         self.b.add(Insn::Save(save));
+        // A look-around is atomic: once its body has matched, alternatives inside the body must
+        // not be retried when matching fails after the look-around. A body that is delegated as
+        // a whole leaves no backtrack branches behind, so only hard bodies need the guard.
+        if inner.hard {
+            self.b.add(Insn::BeginAtomic);
+        }
         self.compile_lookaround_inner(inner, la)?;
+        if inner.hard {
+            self.b.add(Insn::EndAtomic);
+        }
         self.b.add(Insn::Restore(save));
         Ok(())
     }
